@@ -187,6 +187,18 @@ def run_case(ck, desc):
         Tpc, ppc = pseudocritical_point_Sutton(comp["Gas Specific Gravity"], make_nonhydrocarbon_properties(comp["N2"], comp["H2S"], comp["CO2"]), dry)
         T = comp["Reservoir Temperature (deg F)"]
         # and the top of the default range (10 .. 14000 psia)
+        # the table's Z column belongs to THIS gas: every evaluation the builder made carried the
+        # pseudocritical point of the composition it was given (public route: N2, H2S, CO2 in that order)
+        used = {(round(float(e[2]), 9), round(float(e[3]), 9)) for e in EVENTS}
+        if used and used != {(round(float(Tpc), 9), round(float(ppc), 9))}:
+            ck.violation("table-built-for-the-composition-given", {"pseudocritical_points_used": sorted(used)[:3], "expected": [float(Tpc), float(ppc)], "composition": {k: comp[k] for k in ("N2", "H2S", "CO2")}}, desc)
+        ck.count("builder_evaluations_matched_to_composition", len(EVENTS))
+        zt = np.asarray(table["z-factor"], dtype=float)
+        pt = np.asarray(table["pressure"], dtype=float)
+        for k_ in (0, len(pt) // 2, len(pt) - 1):
+            rr = abs(dak.residual(float(zt[k_]), (T + 459.67) / (Tpc + 459.67), float(pt[k_]) / ppc, variant=True))
+            if not ck.margin("table row = root at the composition's own pseudocritical point", rr, 1e-8):
+                ck.violation("table-built-for-the-composition-given", {"row": int(k_), "p": float(pt[k_]), "Z": float(zt[k_]), "residual_at_own_point": rr}, desc)
         for p in (14000.0 - 10.0, 7000.0, 3000.0):
             z_factor_DAK(T, p, Tpc, ppc)
         n = judge_events(ck, desc)
